@@ -240,6 +240,25 @@ impl Adsr {
 /// ADSR input types are represented here
 ///
 /// A, D, and S are represented as positive-only time periods, S is represented as a number in `[0.0, 1.0]`
+#[cfg(feature = "verif-hooks")]
+impl Adsr {
+    /// Verification hook: current phase as a number (0 at-rest, 1 attack, 2 decay, 3 sustain, 4 release)
+    pub fn verif_state(&self) -> u8 {
+        match self.state {
+            State::AtRest => 0,
+            State::Attack => 1,
+            State::Decay => 2,
+            State::Sustain => 3,
+            State::Release => 4,
+        }
+    }
+
+    /// Verification hook: raw value of the phase accumulator
+    pub fn verif_acc(&self) -> u32 {
+        self.phase_accumulator.verif_acc()
+    }
+}
+
 #[derive(Debug, Clone, Copy, PartialEq)]
 pub enum Input {
     Attack(TimePeriod),
